@@ -3,6 +3,7 @@
 mod util;
 mod pure;
 mod total;
+mod run;
 
 #[global_allocator]
 static ALLOC: total::Counting = total::Counting;
@@ -16,6 +17,7 @@ fn main() {
         "load" => pure::load(),
         "total" => total::parent(&args[2], args[3].parse().unwrap()),
         "total-child" => total::child(),
+        "run" => run::run(&args[2], &args[3]),
         "hex" => pure::hexdigest(),
         "sha1" => pure::sha1(),
         _ => {
